@@ -33,6 +33,10 @@ func InitStream(p *xml.Decoder) (sessionID string, err error) {
 
 			// Parse XMPP stream attributes
 			for _, attrs := range elem.Attr {
+				if attrs.Name.Space != "" {
+					// xml:id, or any prefixed id, is not the stream id
+					continue
+				}
 				switch attrs.Name.Local {
 				case "id":
 					sessionID = attrs.Value
